@@ -17,23 +17,81 @@ inductive J where
   | str (s : String)
   | arr (xs : List J)
   | obj (kvs : List (String × J))
+  /-- `ldvalue.Raw(text)`: an unparsed JSON text, held here by the value it parses to (the text is
+  assumed to be valid JSON; `Parse` never yields a raw value, so the payload is normally raw-free).
+  `Value.Type()` of such a value is `RawType` — none of the six JSON types — while every other
+  accessor parses first and then behaves like the parsed value. -/
+  | raw (v : J)
   deriving Inhabited
 
 namespace J
 
-def isNull : J → Bool | null => true | _ => false
-def isString : J → Bool | str _ => true | _ => false
-def isNumber : J → Bool | num _ => true | _ => false
-def isBool : J → Bool | bool _ => true | _ => false
+/-- `Value.parseIfRaw`: the value every accessor other than `Type()` works on.  Strips every `raw`
+wrapper at the top (never yields a `raw`). -/
+def unraw : J → J
+  | raw v => unraw v
+  | null => null
+  | bool b => bool b
+  | num q => num q
+  | str s => str s
+  | arr xs => arr xs
+  | obj kvs => obj kvs
 
-/-- `Value.GetByKey`: object member or null. -/
-def getByKey : J → String → J
-  | obj kvs, k => (kvs.lookup k).getD null
-  | _, _ => null
+@[simp] theorem unraw_raw (v : J) : (raw v).unraw = v.unraw := by rw [unraw]
+@[simp] theorem unraw_null : null.unraw = null := rfl
+@[simp] theorem unraw_bool (b : Bool) : (bool b).unraw = bool b := rfl
+@[simp] theorem unraw_num (q : Rat) : (num q).unraw = num q := rfl
+@[simp] theorem unraw_str (s : String) : (str s).unraw = str s := rfl
+@[simp] theorem unraw_arr (xs : List J) : (arr xs).unraw = arr xs := rfl
+@[simp] theorem unraw_obj (kvs : List (String × J)) : (obj kvs).unraw = obj kvs := rfl
+
+/-- `unraw` never returns a raw value. -/
+theorem unraw_ne_raw : (v w : J) → v.unraw ≠ raw w
+  | raw v, w => by simpa using unraw_ne_raw v w
+  | null, _ | bool _, _ | num _, _ | str _, _ | arr _, _ | obj _, _ => by simp
+
+@[simp] theorem unraw_unraw : (v : J) → v.unraw.unraw = v.unraw
+  | raw v => by simpa using unraw_unraw v
+  | null | bool _ | num _ | str _ | arr _ | obj _ => rfl
+
+/-- `Value.Type() == RawType` -/
+def isRaw : J → Bool | raw _ => true | _ => false
+
+/-- A value that is not raw is its own parsed form. -/
+theorem unraw_of_not_raw {v : J} (h : v.isRaw = false) : v.unraw = v := by
+  cases v <;> first | rfl | cases h
+
+/-- `Value.IsNull` / `IsString` / `IsNumber` / `IsBool`: transparent (parse first). -/
+def isNull (v : J) : Bool := match v.unraw with | null => true | _ => false
+def isString (v : J) : Bool := match v.unraw with | str _ => true | _ => false
+def isNumber (v : J) : Bool := match v.unraw with | num _ => true | _ => false
+def isBool (v : J) : Bool := match v.unraw with | bool _ => true | _ => false
+
+theorem isNull_iff (v : J) : v.isNull = true ↔ v.unraw = null := by
+  unfold isNull; cases v.unraw <;> simp
+
+theorem isNull_eq_false_iff (v : J) : v.isNull = false ↔ v.unraw ≠ null := by
+  unfold isNull; cases v.unraw <;> simp
+
+@[simp] theorem isNull_raw (v : J) : (raw v).isNull = v.isNull := by simp [isNull]
+@[simp] theorem isNull_null : null.isNull = true := rfl
+@[simp] theorem isNull_bool (b : Bool) : (bool b).isNull = false := rfl
+@[simp] theorem isNull_num (q : Rat) : (num q).isNull = false := rfl
+@[simp] theorem isNull_str (s : String) : (str s).isNull = false := rfl
+@[simp] theorem isNull_arr (xs : List J) : (arr xs).isNull = false := rfl
+@[simp] theorem isNull_obj (kvs : List (String × J)) : (obj kvs).isNull = false := rfl
+
+/-- `Value.GetByKey`: object member or null; a raw value is parsed first (and the members of the
+parsed object are ordinary values). -/
+def getByKey (v : J) (k : String) : J :=
+  match v.unraw with
+  | obj kvs => (kvs.lookup k).getD null
+  | _ => null
 
 /-- Type-and-value equality of primitives (`Value.Equal` restricted to bool/number/string, which
-is all the evaluator ever uses it for). -/
-def primEq : J → J → Bool
+is all the evaluator ever uses it for).  `Equal` parses a raw operand on either side first. -/
+def primEq (a b : J) : Bool :=
+  match a.unraw, b.unraw with
   | bool a, bool b => a == b
   | num a, num b => a == b
   | str a, str b => a == b
@@ -203,6 +261,8 @@ def topLevel (c : SCtx) (name : String) : Option J :=
   else if name == "anonymous" then some (.bool c.anonymous)
   else c.attrs.lookup name
 
+/-- The component loop of `GetValueForRef`: a raw value on the way is parsed (`ldvalue.Parse(value.AsRaw())`,
+here inside `getByKey`) and the member of the parsed value is returned. -/
 def descend : J → List String → J
   | v, [] => v
   | v, k :: ks => descend (v.getByKey k) ks
